@@ -41,12 +41,16 @@ Ltac break_hyp H :=
 
 Ltac finish :=
   unfold Inv, published in *; simpl in *; subst;
-  repeat match goal with
-         | H : _ /\ _ |- _ => destruct H
-         | H : Some _ = Some _ |- _ => inversion H; subst; clear H
-         | H : Bool.eqb _ _ = true |- _ => apply eqb_prop in H; subst
-         | H : Nat.eqb _ _ = true |- _ => apply Nat.eqb_eq in H; subst
-         end;
+  repeat (match goal with
+          | H : _ /\ _ |- _ => destruct H
+          | H : Some _ = Some _ |- _ => inversion H; subst; clear H
+          | H : Bool.eqb _ _ = true |- _ => apply eqb_prop in H; subst
+          | H : Nat.eqb _ _ = true |- _ => apply Nat.eqb_eq in H; subst
+          | H : ?x = Some _ |- _ => is_var x; subst x
+          | H : ?x = None |- _ => is_var x; subst x
+          | H : ?x = true |- _ => is_var x; subst x
+          | H : ?x = false |- _ => is_var x; subst x
+          end; simpl in *);
   try discriminate; try contradiction;
   try (intuition (try discriminate; try congruence; auto 10); fail).
 
@@ -59,7 +63,7 @@ Proof. intros [] [] H; try discriminate; try reflexivity. apply Nat.eqb_eq in H;
 Lemma step_inv : forall s e s', step Repaired s e s' -> Inv s -> Inv s'.
 Proof.
   intros [c t r es ev h w] e s' H I; unfold step in H.
-  destruct e as [st| | | | |b| |u| | |v]; simpl in H.
+  destruct e as [st| | | | |b| |u|u| | |v]; simpl in H.
   - break_hyp H; inversion H; subst; clear H; finish.
   - break_hyp H; inversion H; subst; clear H; finish.
   - unfold set_status in H; simpl in H. destruct h as [wd|]; [|discriminate].
@@ -75,6 +79,7 @@ Proof.
   - break_hyp H; inversion H; subst; clear H; finish.
   - destruct w; try discriminate. destruct c as [|st|]; try discriminate. inversion H; subst; clear H.
     destruct t as [st|]; [|finish]. unfold Inv, published in *; simpl in *. intuition (try discriminate; try congruence).
+  - destruct w; try discriminate. inversion H; subst; clear H. exact I.
   - unfold set_status in H; simpl in H. destruct w as [| |wd| | | |]; try discriminate.
     destruct c as [|st|]; [finish|finish|]. destruct t as [st|]; [|finish].
     unfold Inv, published in I; simpl in I. destruct I as [I|[I|I]]; [finish| |finish].
@@ -111,7 +116,7 @@ Qed.
 
 (* the pinned code follows the same protocol as long as no blocking waitpid fails *)
 Fixpoint no_waitpid_failure (tr : list event) : bool :=
-  match tr with [] => true | WaitpidFails _ :: _ => false | _ :: r => no_waitpid_failure r end.
+  match tr with [] => true | WaitpidFails _ :: _ => false | WaitpidInterrupted _ :: _ => false | _ :: r => no_waitpid_failure r end.
 
 Lemma pinned_as_repaired : forall s tr s', steps Pinned s tr s' -> no_waitpid_failure tr = true -> steps Repaired s tr s'.
 Proof.
@@ -128,6 +133,8 @@ Definition witness_success_for_failure : list event :=
   [TestRunning true; ChildExits (Exited 3); HandlerReaps; HandlerSets; WaitpidFails (WExit 0); WaitSets; Return Success].
 Definition witness_signal_for_success : list event :=
   [TestRunning true; ChildExits (Exited 0); HandlerReaps; HandlerSets; WaitpidFails (WSig 9); WaitSets; Return KilledBySignal].
+Definition witness_interrupted : list event :=
+  [TestRunning true; WaitpidInterrupted (WExit 0); WaitSets; Return Success].
 Definition witness_throw_for_success : list event :=
   [TestRunning true; ChildExits (Exited 0); HandlerReaps; HandlerSets; WaitpidFails WUnknown; WaitSets; Return OtherError].
 
@@ -163,3 +170,8 @@ Proof.
 Qed.
 Lemma accepts_complete : forall k tr s, steps k init tr s -> accepts k tr = true.
 Proof. intros k tr s H; unfold accepts; rewrite (run_complete _ _ _ _ H); reflexivity. Qed.
+
+Lemma refuted_pinned_interrupted : exists tr s, steps Pinned init tr s /\ wp s = Finished Success /\ truth s = None /\ ch s = Running.
+Proof.
+  exists witness_interrupted. eexists. split; [apply run_sound; vm_compute; reflexivity|]. repeat split.
+Qed.
